@@ -184,7 +184,7 @@ class St:
     __slots__ = ('mem', 'facts', 'known', 'effects', 'wver', 'stack', 'iters', 'nfork', 'order')
     def __init__(self):
         self.mem = {}; self.facts = []; self.known = {}; self.effects = []
-        self.wver = 0; self.stack = (); self.iters = 0; self.nfork = 0; self.order = ()
+        self.wver = (); self.stack = (); self.iters = 0; self.nfork = 0; self.order = ()
     def copy(self):
         s = St.__new__(St)
         s.mem = dict(self.mem); s.facts = list(self.facts); s.known = dict(self.known)
